@@ -28,7 +28,7 @@ func connEnded(prop string, i int, cs *connState) []Violation {
 	if cs.Wedged {
 		v = append(v, Violation{Prop: prop, Rule: "wedge", Detail: fmt.Sprintf("conn %d: server keeps using the transport after it ended (%d operations)", i, cs.AfterEnd), Sig: "wedge"})
 	}
-	if cs.Started && cs.Closed == 0 {
+	if cs.Started && cs.ClosedBefore == 0 && !cs.cc.NoEOF && !cs.Wedged {
 		v = append(v, Violation{Prop: prop, Rule: "not-closed", Detail: fmt.Sprintf("conn %d: input ended but the server never closed the connection", i), Sig: "not-closed"})
 	}
 	return v
